@@ -27,6 +27,7 @@ EXPLANATION = (
     "correlating, searches a lag window that covers every delay below one pattern length (W >= 2*l - 1), returns argmax of the correlation and a signal sliced from that index. Not decided: behaviour against a simulated "
     "instrument over call histories, SYNC under noise.")
 EXPLANATION += (' Added after the audit wave: C20.5 the delays searched by SYNC are 0 .. l-1 and no more (lag l ties with lag 0 on a repeated pattern); C20.3 the memory clamp of set_data measures the converted, tiled array on its last axis and cuts columns, not rows.')
+EXPLANATION += (' Second audit wave: C20.3 set_data and get_data both bring start_addrs into [1, MAX_MEMORY_LEN] before using it (sibling agreement).')
 TRUSTED = ["numpy clip/arange/tile/split semantics", "IEEE-488.2 definite-length block header format #<k><n>", "documented PPG3204 limits as listed in the property statement"]
 
 DOCUMENTED = {"CHANNELS": 4, "PATT_LEN_MIN": 2, "PATT_LEN_MAX": 2 ** 21, "AMPLITUDE_MIN": 0.3, "AMPLITUDE_MAX": 2, "OFFSET_MIN": -2, "OFFSET_MAX": 3,
@@ -185,6 +186,29 @@ def run(ctx):
                 ctx.check("C20.2", ok, m, ifn, f"{m.qualname}: out-of-range branch `{src_of(ifn.test)[:80]}`", "clamp and warn, no raise",
                           "the out-of-range branch " + ("raises" if has_raise else "does not issue a warning"))
     ctx.notes.append(f"{n_sites} _query call sites analysed")
+    # ---------------- C20.3 the address a transfer starts at: set_data and get_data agree on its range.  get_data clamps the start
+    # address to [1, MAX_MEMORY_LEN] with a warning; a set_data that sends the address as given writes at 0 / a negative address /
+    # beyond the memory (the room computed from it is then negative: the data are cut from the END), and reading the range back
+    # addresses other cells than were written
+    for mname in ("set_data", "get_data"):
+        mm = ci.methods.get(mname)
+        if mm is None:
+            continue
+        clamped = False
+        for n_ in ast.walk(mm.node):
+            if isinstance(n_, ast.If) and any(isinstance(x, ast.Name) and x.id == "start_addrs" for x in ast.walk(n_.test)) \
+                    and any(isinstance(x, ast.Compare) for x in ast.walk(n_.test)):
+                if any(isinstance(st_, ast.Assign) and any(isinstance(t_, ast.Name) and t_.id == "start_addrs" for t_ in st_.targets) for st_ in ast.walk(n_)):
+                    clamped = True
+        if not clamped:
+            # the clamp may be written without a guard: start_addrs = clip/min/max(...) over the memory range
+            for n_ in ast.walk(mm.node):
+                if isinstance(n_, ast.Assign) and any(isinstance(t_, ast.Name) and t_.id == "start_addrs" for t_ in n_.targets) \
+                        and any(isinstance(x, ast.Attribute) and x.attr == "MAX_MEMORY_LEN" for x in ast.walk(n_.value)):
+                    clamped = True
+        ctx.check("C20.3", clamped, mm, mm.node, f"{mname}: start address brought into [1, MAX_MEMORY_LEN] before it is used", "clamped like its sibling",
+                  f"{mname} uses `start_addrs` as given: set_data([1,0,1], start_addrs=0) emits ':DIG1:PATT:DATA 0,3,...', start_addrs=2**21+3 a fragment past the memory - while get_data clamps "
+                  "the same argument to 1..2^21, so the range written is not the range read back")
     # ---------------- C20.3 framing in set_data
     sd = ci.methods.get("set_data")
     if sd is None:
